@@ -27,7 +27,9 @@ def run_patch(tag, patch, checks):
         p = subprocess.run(["git", "-C", repo, "apply", patch], capture_output=True, text=True)
         if p.returncode != 0:
             return tag, {"apply-failed": p.stderr[-300:]}
-        env = dict(os.environ, VERIF_REPO=repo, VERIF_BUILD=os.path.join(root, "build"), VERIF_OUT=os.path.join(root, "out"), VERIF_NOLOCK="1")
+        drv = os.path.join(root, "bppdriver")
+        shutil.copy(os.path.join(VERIF, "lean", ".lake", "build", "bin", "bppdriver"), drv)
+        env = dict(os.environ, VERIF_SKIP_OBLIGATIONS="1", VERIF_DRIVER_BIN=drv, VERIF_DRIVER=drv, VERIF_REPO=repo, VERIF_BUILD=os.path.join(root, "build"), VERIF_OUT=os.path.join(root, "out"), VERIF_NOLOCK="1")
         for c in checks:
             t0 = time.time()
             q = subprocess.run([os.path.join(VERIF, "check"), c, "--tier", "quick"], capture_output=True, text=True, env=env, cwd=VERIF)
